@@ -153,6 +153,14 @@ func judge(c srcmut.Case) (msg string, class string) {
 		if pos.Line == line && (atEOL || strings.Contains(o.Err.Error(), "unexpected newline") || strings.Contains(o.Err.Error(), "unexpected semicolon")) && ev.Known("C21-implicit-semicolon-offset") {
 			return "", "error-implicit-semicolon"
 		}
+		// Same finding, across lines: a general comment that contains a newline acts like a
+		// newline; the semicolon inserted for it has the line and column of the start of the
+		// comment and the offset of its end.
+		if off, ok := offsetOf(src, pos.Line, pos.Column); ok && off < pos.Start && pos.Start < len(src) && strings.HasPrefix(src[off:], "/*") &&
+			strings.Contains(src[off:pos.Start+1], "\n") && !strings.Contains(src[off+2:pos.Start-1], "*/") &&
+			(strings.Contains(o.Err.Error(), "unexpected newline") || strings.Contains(o.Err.Error(), "unexpected semicolon")) && ev.Known("C21-implicit-semicolon-offset") {
+			return "", "error-implicit-semicolon"
+		}
 		if pos.Line != line {
 			return fmt.Sprintf("line %d reported for offset %d of %q, which is on line %d: %v", pos.Line, pos.Start, path, line, o.Err), "error"
 		}
